@@ -69,6 +69,14 @@ impl<S> MergeBounded<S> {
     }
 }
 
+#[cfg(futures_buffered_verif)]
+impl<S> MergeBounded<S> {
+    /// Verification only: address of the shared waker block.
+    pub fn verif_block(&self) -> usize {
+        self.streams.verif_block()
+    }
+}
+
 impl<S: Stream> Stream for MergeBounded<S> {
     type Item = S::Item;
 
